@@ -3,6 +3,8 @@ import Rbgp.Policy.Model
 import Rbgp.Policy.Spec
 import Rbgp.Policy.Regex
 import Rbgp.Policy.Wf
+import Rbgp.Policy.DCodec
+import Rbgp.Policy.DSpec
 namespace Rbgp.C14
 open Rbgp Rbgp.Term Rbgp.Policy Rbgp.Policy.Codec
 
@@ -15,9 +17,16 @@ def verdictStr : Spec.Verdict → String
 def handler (mode : String) (line : String) : String :=
   match mode with
   | "model" =>
-      match (parseFast line).bind caseOf? with
-      | some c => if Wf.wfCase c then toStr (obsT c.probes (run Regex.env c)) else "(bad-case)"
+      match parseFast line with
       | none => "(bad-case)"
+      | some t =>
+          match caseOf? t with
+          | some c => if Wf.wfCase c then toStr (obsT c.probes (run Regex.env c)) else "(bad-case)"
+          | none =>
+              match DCodec.dcaseOf? t with
+              | some c =>
+                  if Wf.wfDCase c then toStr (DCodec.dobsT c.probes (drun Regex.env c)) else "(bad-case)"
+              | none => "(bad-case)"
   | "oracle" =>
       match parseManyFast line with
       | some [ct, ot] =>
@@ -31,7 +40,16 @@ def handler (mode : String) (line : String) : String :=
                 match obsOf? c.probes ot with
                 | some o => verdictStr (Spec.check Regex.env c o)
                 | none => "fail step=0 idx=0 clause=unparsable-observation"
-          | none => "ok"
+          | none =>
+              match DCodec.dcaseOf? ct with
+              | some c =>
+                  if !Wf.wfDCase c then "ok"
+                  else if ot == .list [.atom "bad-case"] then "fail step=0 idx=0 clause=harness-rejected-wellformed-case"
+                  else
+                    match DCodec.dobsOf? c.probes ot with
+                    | some o => verdictStr (DSpec.dcheck Regex.env c o)
+                    | none => "fail step=0 idx=0 clause=unparsable-observation"
+              | none => "ok"
       | _ => "(bad-line)"
   | _ => "(bad-mode)"
 
